@@ -1,8 +1,8 @@
 #!/verif/.venv/bin/python
 # Replay of a solver counterexample against the unmodified code (no shims).
-# property=C03 kernel=two label=c03:start_exact
+# property=C03 kernel=estimate label=c03:nodelay_starts_at_end_or_barrier
 import sys
 sys.path[:0] = ['/repo' + "/pulser-core", '/repo' + "/pulser-simulation", "/verif"]
 from symx.replay import replay
-sys.exit(replay(check='checks.c03', kernel='two', shape={'own': {'clock': 4, 'local': False, 'slots': [], 'mod': True, 'pj': 'derived', 'targets_a': ['q0'], 'targets_b': ['q1']}, 'other': {'clock': 1, 'local': False, 'slots': ['pulseA'], 'mod': True, 'pj': 'derived', 'targets_a': ['q0'], 'targets_b': ['q2']}, 'op': ['add_pulse', 'min-delay', 'A'], 'maxseq': False, 'nbarriers': 1},
-                assignment={'own.min_duration': 2, 'own.tr': 1, 'other.min_duration': 1, 'other.tr': 1, 'other.s0.dur': 1, 'new.dur/k': 1, 'barrier0': 2, 'buf#1.start': 0, 'buf#1.end': 0, 'buf#2.start': 0, 'buf#2.end': 0, 'buf#3.start': 0, 'buf#3.end': 0, 'buf#4.start': 0, 'buf#4.end': 0}, label='c03:start_exact'))
+sys.exit(replay(check='checks.c03', kernel='estimate', shape={'program': 'dmm_after_shift', 'protocol': 'no-delay'},
+                assignment={'ph0': 0, 'd0/k': 2, 'phi1': 0, 'dn/k': 2}, label='c03:nodelay_starts_at_end_or_barrier'))
